@@ -143,7 +143,7 @@ Proof.
     destruct res as [[y [|]]| | |]; rewrite ?Hc; cbn [fst]; try exact H3.
     - destruct Ho as [-> | ->]; cbn [finalize_mod fst]; exact H3.
     - destruct prof; rewrite ?Hc; exact H3. }
-  destruct eager.
+  destruct (eager (i_data meta)).
   - destruct (Hopen s2 H2) as [H3 Ho].
     destruct (open_output e fault Check (tmp_path p) s2) as [s3 [o|]]; cbn [fst snd] in *; [|exact H3].
     apply Hafter; [|exact H3]. destruct Ho as [Ho|Ho]; [injection Ho as ->; auto | discriminate].
@@ -440,7 +440,7 @@ Proof.
     destruct (open_output_real e fault t s') as [s3 [i|]]; cbn [fst snd] in *.
     - split; [split; assumption|]. intros o E; injection E as <-. exists i. split; [reflexivity | apply D; reflexivity].
     - split; [split; assumption | discriminate]. }
-  destruct eager.
+  destruct (eager (i_data meta)).
   - destruct (Hopen s2 G2) as [G3 Ho].
     destruct (open_output e fault Real t s2) as [s3 [o|]]; cbn [fst snd] in *; [|apply clean_atomic, G3].
     apply Hafter; [exact G3 | right; apply Ho; reflexivity|].
@@ -702,7 +702,7 @@ Proof.
     destruct (open_output_real e fault t s') as [s3 [i|]]; cbn [fst snd] in *.
     - split; [assumption|]. intros o E; injection E as <-. exists i. split; [reflexivity|]. split; [apply D; reflexivity | apply T; reflexivity].
     - split; [assumption | discriminate]. }
-  destruct eager.
+  destruct (eager (i_data meta)).
   - destruct (Hopen s2 C2) as [C3 Ho].
     destruct (open_output e fault Real t s2) as [s3 [o|]]; cbn [fst snd] in *; [|discriminate].
     apply Hafter; [exact C3 | right; apply Ho; reflexivity|].
